@@ -159,13 +159,59 @@ fn explore_iff(opts: &Opts) -> Local {
     })
 }
 
+pub fn machines(opts: &Opts) -> Vec<crate::machine::MCfg> {
+    use crate::checks::c10::{base_cfg, same_shape_leaves};
+    use crate::machine::Bounds;
+    let var = opts.seed % 3;
+    let mut out = Vec::new();
+    match opts.tier {
+        Tier::Quick => {
+            // flags on handles and clones, untracked intermediates, two passes
+            let two: Vec<crate::machine::LeafSpec> = same_shape_leaves(var).into_iter().enumerate().filter(|(i, _)| *i != 1).map(|(_, l)| l).collect();
+            let mut m = base_cfg("flags/N2F2P2K1", two, vec![OpK::Mul], 4);
+            m.bounds = Bounds { builds: 2, flags: 2, passes: 2, clones: 1, depth: 6, ..Bounds::default() };
+            m.flag_kinds = vec![0, 1, 2, 3];
+            m.touch_leaves = true;
+            m.seeds = vec![0];
+            out.push(m);
+            // fetched gradients are plain independent arrays: adopt them as leaves of a new graph
+            let mut m = base_cfg("adopt/N2P2A2", same_shape_leaves(var), vec![OpK::Add, OpK::Mul], 6);
+            m.bounds = Bounds { builds: 2, passes: 2, adopts: 2, fetches: 1, depth: 6, ..Bounds::default() };
+            m.seeds = vec![0];
+            out.push(m);
+        }
+        Tier::Thorough => {
+            let mut m = base_cfg("flags/N3F3P2K1", same_shape_leaves(var), vec![OpK::Mul, OpK::Add], 6);
+            m.bounds = Bounds { builds: 3, flags: 3, passes: 2, clones: 1, depth: 7, ..Bounds::default() };
+            m.flag_kinds = vec![0, 1, 2, 3];
+            m.touch_leaves = true;
+            m.seeds = vec![0];
+            out.push(m);
+            let mut m = base_cfg("flags/N2F4P3K1C1", same_shape_leaves(var), vec![OpK::Mul, OpK::Neg], 5);
+            m.bounds = Bounds { builds: 2, flags: 4, passes: 3, clones: 1, clears: 1, depth: 8, ..Bounds::default() };
+            m.flag_kinds = vec![0, 1, 2, 3];
+            m.touch_leaves = true;
+            m.seeds = vec![0];
+            out.push(m);
+            let mut m = base_cfg("adopt/N3P2A2F1", same_shape_leaves(var), vec![OpK::Add, OpK::Mul, OpK::Matmul { ta: false, tb: false, bias: true }], 7);
+            m.bounds = Bounds { builds: 3, passes: 2, adopts: 2, fetches: 1, depth: 7, ..Bounds::default() };
+            m.seeds = vec![0];
+            out.push(m);
+        }
+    }
+    out
+}
+
 pub fn explore(opts: &Opts) -> Explored {
-    let local = explore_iff(opts);
-    let _ = (Program { leaves: vec![], nodes: vec![], retrack: Vec::new() }, RErr::Refuse);
+    let mut local = explore_iff(opts);
+    let _ = (Program { leaves: vec![], nodes: vec![], retrack: vec![] }, RErr::Refuse);
+    let (ml, stats) = crate::checks::c10::run_all(opts, machines(opts));
+    local.merge(ml);
     Explored {
         local,
-        bounds: json!({"iff_rule_operation_instances": iff_ops().len(), "operand_masks": "all 2^arity"}),
-        rule: "E1 part: every operation instance x every tracked/untracked assignment of its operands: result flag iff some operand tracked, operand flags untouched by the operation and by a pass, gradients exactly on tracked operands, gradients untracked and graph-free, untracked operands not retained".into(),
+        bounds: json!({"iff_rule_operation_instances": iff_ops().len(), "operand_masks": "all 2^arity", "machines": stats,
+                       "flag_actions": ["tracked()", "untracked()", "start_tracking()", "stop_tracking()"]}),
+        rule: "E3 part: explicit-state BFS over histories of build / flag (on handles, leaves and clones) / clone / backward / fetch / adopt executed on the real library; after every step every handle's tracking flag, gradient presence and gradient value equal the reference's tracking semantics (edges carry gradients iff the operand handle was tracked when used; nothing flows below an untracked intermediate; a pass leaves flags unchanged; a flag set on a clone never changes the original; stored gradients are untracked and independent arrays). E1 part: every operation instance x every tracked/untracked assignment of its operands: result flag iff some operand tracked, operand flags untouched by the operation and by a pass, gradients exactly on tracked operands, gradients untracked and graph-free, untracked operands not retained".into(),
         exhaustive: true,
         assumptions: vec!["reshape and sum(0) share storage by design and are exempt from the ownership probe only".into()],
     }
